@@ -8,7 +8,8 @@ Init == x = 0
 Next == UNCHANGED x
 Triples(items, c) == Map(LAMBDA it : <<Start(it), End(it), Val(it)>>, ItemsOf(items, c))
 AnsBad(o, a) ==
-  \/ (a.op = "badchrom" /\ a.err # 1)          \* a chromosome the file does not have: an error, not an answer
+  \* (a query naming a chromosome the file does not have - op "badchrom" - is not judged itself: the statement does not say whether
+  \*  that is an error or an empty answer; what is judged is every answer AFTER it)
   \/ (a.op # "badchrom" /\ a.err = 1)
   \/ (a.op = "interval" /\ ~IntervalOK(Triples(o.items, a.c), a.s, a.e, a.iv))
   \/ (a.op = "values" /\ ~ValuesOK(Triples(o.items, a.c), a.s, a.e, a.vals))
